@@ -43,9 +43,8 @@ _i = st.integers
 
 
 def via_file(text, reader, *extra):
-    fd, path = tempfile.mkstemp(suffix=".yaml")
-    with os.fdopen(fd, "w") as f:
-        f.write(text)
+    from gen import files
+    path = files.write(len(text), text)  # (file names with blanks, dots, parentheses, sub-directories: all valid names)
     try:
         return reader(path, *extra)
     finally:
@@ -215,6 +214,7 @@ def run_alloc(c):
     else:
         cc = c["design"]
         nl = Netlist(c03.netlist_tree(cc))
+        c03.release(nl, cc)
         die = Die(D.die_tree(cc["die"]), nl)
         ref = cc["refine"]
         if ref and ref[0] == "split" and die.floorplanning_rectangles()[0]:
